@@ -45,20 +45,20 @@ RULE = ("every tree of the bounded grammar is built once from fresh lena objects
         "that lies after it or in a sibling branch (something that could interfere), or when the tree "
         "contains an unresolvable formatting key; trees are distinct by construction of the enumeration")
 ASSUMPTIONS = [
-    "static keys are Ka, Kb, Kn.a, Kn.b; values are constants or one-field templates '{{k}}_x'",
+    "static keys are Ka, Kb, Kn.a, Kn.b; values are constants (1, 2, 3, None) or one-field templates '{{k}}_x'",
     "observations: StoreContext.context, the run-time context after UpdateContextFromStatic, the name "
     "MakeFilename produces, Write.output_directory, Cache._filename, node._get_context()",
     "whether the intersection exported by a Split keeps an empty sub-dictionary, and whether a branch "
     "without any static-context method takes part in the intersection, is not stated: both accepted",
     "what a consumer placed after an unresolvable key inside the same sequence holds is not stated: "
     "there only the causal (differential) law is judged",
-    "data elements are pass-through callables; run-time law uses one input value",
+    "data elements pass every value on after writing its data under context.Kn (in place) if a dictionary is there; the run-time law uses two input values",
 ]
 NONTRIVIAL_FLOOR = {"quick": 20000, "thorough": 200000}
 BUDGET_S = {"quick": 300, "thorough": 3300}
 
 S_CORE = [["S", "Ka", 1], ["S", "Kb", 2], ["S", "Ka", "{{Kb}}_x"]]
-S_MORE = [["S", "Kn.a", 3], ["S", "Kb", "{{Ka}}_x"], ["S", "Kn.b", "{{Kn.a}}_x"]]
+S_MORE = [["S", "Kn.a", 3], ["S", "Kb", None], ["S", "Kb", "{{Ka}}_x"], ["S", "Kn.b", "{{Kn.a}}_x"]]
 CONSUMER_VARIANTS = [["St"], ["U"], ["M", "Ka"], ["M", "Kb"], ["W", "Ka"], ["W", "Kb"], ["C", "Ka"], ["C", "Kb"]]
 
 
@@ -126,18 +126,19 @@ class Grammar(object):
 
 def _families(tier):
     """(label, family, grammar, depth, n) simplest first."""
-    fa_quick = Grammar(S_CORE + [S_MORE[0]] + [["O"], ["D"]], br=("t", "bare", "acc", "src"), empties=True)
+    fa_quick = Grammar(S_CORE + S_MORE[:2] + [["O"], ["D"]], br=("t", "bare", "acc", "src"), empties=True)
     fa_thor = Grammar(S_CORE + S_MORE + [["O"], ["D"]], br=("t", "bare", "acc", "src"), empties=True)
-    fb_quick = Grammar(S_CORE)
-    fb_thor = Grammar(S_CORE + [S_MORE[0]])
+    fb_quick = Grammar(S_CORE + S_MORE[:2])
+    fb_thor = Grammar(S_CORE + S_MORE[:2])
+    fb_small = Grammar(S_CORE)
     out = []
     if tier == "quick":
         for n in (0, 1, 2):
             out.append(("A:d2:n%d" % n, "A", fa_quick, 2, n))
         for n in (1, 2, 3):
-            out.append(("B:d2:n%d" % n, "B", fb_quick, 2, n))
+            out.append(("B:d2:n%d" % n, "B", fb_quick if n < 3 else fb_small, 2, n))
         for n in (1, 2):
-            out.append(("B:d3:n%d" % n, "B", fb_quick, 3, n))
+            out.append(("B:d3:n%d" % n, "B", fb_quick if n < 2 else fb_small, 3, n))
     else:
         for n in (0, 1, 2):
             out.append(("A:d2:n%d" % n, "A", fa_thor, 2, n))
@@ -146,8 +147,8 @@ def _families(tier):
         for n in (1, 2):
             out.append(("B:d3:n%d" % n, "B", fb_thor, 3, n))
         out.append(("A:d2:n3", "A", fa_quick, 2, 3))
-        out.append(("B:d2:n4", "B", fb_quick, 2, 4))
-        out.append(("B:d3:n3", "B", fb_quick, 3, 3))
+        out.append(("B:d2:n4", "B", fb_small, 2, 4))
+        out.append(("B:d3:n3", "B", fb_small, 3, 3))
     return out
 
 
@@ -199,12 +200,14 @@ def _subst(tree, mapping, counter=None):
 
 
 def _saturate(tree, cons):
+    """*cons*: one consumer leaf, or ["+", leaf, leaf ...] for several leaves per position."""
     kind = tree[0]
+    ins = [list(x) for x in cons[1:]] if cons[0] == "+" else [list(cons)]
     if kind in ("seq", "src", "t"):
-        out = [list(cons)]
+        out = [list(x) for x in ins]
         for ch in tree[1]:
             out.append(_saturate(ch, cons))
-            out.append(list(cons))
+            out.extend(list(x) for x in ins)
         return [kind, out]
     if kind == "split":
         return ["split", [_saturate(br, cons) for br in tree[1]]]
@@ -217,6 +220,8 @@ def assignments(fam, tree):
         yield tree
         for cv in CONSUMER_VARIANTS:
             yield _saturate(tree, cv)
+        # UpdateContextFromStatic followed by a data element that writes in place, everywhere
+        yield _saturate(tree, ["+", ["U"], ["D"]])
         return
     k = len(_o_paths(tree))
     if k == 0:
@@ -348,7 +353,7 @@ class Judge(object):
             for path, spec in M.leaves(tree):
                 if spec[0] == "U":
                     ucfs[path] = copy.deepcopy(b.objs[path]._context)
-            model = M.RunModel(tree, ucfs)
+            model = M.RunModel(tree, ucfs, b.src_data)
             try:
                 outs = ("ok", M.multiset(B.run_whole(tree, b)))
             except Exception as e:
